@@ -38,6 +38,16 @@ def sched_comp(rng, finish_last=True):
     return "%d:%d:%d,%d:%d:4" % (rng.range(0, 3000), rng.range(1, 3000), f(), rng.range(0, 100), rng.range(1, 100))
 
 
+def mz_sched(sc):
+    """a compressor schedule restricted to the flush values deflate() accepts (None, Sync, Full, Finish): only the
+    third field of each item is rewritten"""
+    out = []
+    for it in sc.split(","):
+        c, o, f = it.split(":")
+        out.append("%s:%s:%s" % (c, o, {"5": "0", "6": "2", "7": "0", "1": "2"}.get(f, f)))
+    return ",".join(out)
+
+
 def spec_of_outputs(ctx, items):
     """items: (key, zlib?, hex string of compressed bytes). returns key -> parsed sinflate line"""
     cases = [(k, ["sinflate %d %s" % (1 if z else 0, h)]) for k, z, h in items]
@@ -214,7 +224,7 @@ def c02_cases(ctx, sink_variants=True):
         if which == 0:
             ops.append("cdrive @ %s" % sched_comp(rng))
         elif which == 1:
-            ops.append("dfdrive @ %s" % re.sub(r":[567](,|$)", r":0\1", sched_comp(rng)))
+            ops.append("dfdrive @ %s" % mz_sched(sched_comp(rng)))
         else:
             # callback sink: explicit calls, all callback invocations accepted
             cuts = sorted(set([0, n] + [rng.range(0, n) for _ in range(rng.range(0, 3))]))
@@ -356,8 +366,8 @@ def c02_eval(ctx):
                         exp = core_show(m["data"][:cons])
                         if o["verdict"] != "done" or o.get("o") != exp:
                             bad = "concatenated output does not decode to the %d consumed input bytes: reference decoder says %s len=%s" % (cons, o["verdict"] + " " + o.get("ekind", ""), o.get("len"))
-                        elif cons != len(m["data"]) and m["kind"] == "stream":
-                            bad = "Done reported with only %d of %d input bytes consumed" % (cons, len(m["data"]))
+                        # (how much of the input the schedule got through before its first Finish request is the schedule's
+                        # business: the claim judged here is that the output decodes to exactly the consumed prefix)
                     if bad:
                         break
             if bad:
@@ -703,7 +713,7 @@ def c12_eval(ctx):
                 if fl == 3 and m["fmt"] == 2 and not bad:
                     qi += 1
                     s = parse_fields(orc.get((cid, qi), ("", "missing"))[1])
-                    if not s["_"] or s["_"][0] != "done" or s.get("o") != core_show(m["data"][in_off:]):
+                    if not s["_"] or s["_"][0] != "done" or s.get("o") != core_show(m["data"][in_off:int(f.get("in", len(m["data"])))]):
                         bad = "remainder after a full flush is not decodable on its own (%s): a later match refers to data before the flush" % (s["_"][:2],)
                 if bad:
                     break
@@ -781,7 +791,7 @@ def c14_cases(ctx):
     for i in range(40 if ctx.tier == "quick" else 300):
         data = data_classes(rng, rng.choice([0, 1, 100, 5000, 70000]))
         level = rng.choice([0, 1, 6, 9])
-        ops = ["in %s" % hx(data), "cparams 0 %d 0 15" % level, "dfdrive @ %s" % sched_comp(rng).replace(":5", ":0").replace(":6", ":2").replace(":7", ":0").replace(":1,", ":2,"),
+        ops = ["in %s" % hx(data), "cparams 0 %d 0 15" % level, "dfdrive @ %s" % mz_sched(sched_comp(rng)),
                "dfcall - 10 4", "dfcall - 10 0", "dfcall - 0 4"]
         k += 1
         ctx.add("d%d" % k, ops, kind="drv", data=data, level=level)
